@@ -124,7 +124,7 @@ type Exec struct {
 	loops    []*loopCtx
 	obls     []*Obligation
 	axioms   []*Term
-	axiomSet map[string]bool
+	axiomSet map[*Term]bool
 	nfresh   int
 	consts   map[string]Sort
 	funs     map[string]funSig
@@ -148,13 +148,15 @@ type Exec struct {
 	curStmt  ast.Node
 	ghostDec []*Term
 	topReturns int
-	framed     map[string]bool
+	loopEntry  []*State
+	rangeIdx   []*Term
+	framed     map[*Term]bool
 	fnSyms     map[string]*types.Func
 	replayText *Term
 	replayHeap *Term
 	replayTerms []*Term
 	mathSites  int
-	unfolded  map[string]bool
+	unfolded  map[*Term]bool
 	zeroLinks map[string]func(r *Term) *Term
 	extUsed   map[string]int
 }
@@ -165,7 +167,7 @@ type heapLink struct {
 }
 
 func newExec(p *Prog, fi *FuncInfo) *Exec {
-	return &Exec{p: p, top: fi, axiomSet: map[string]bool{}, consts: map[string]Sort{}, funs: map[string]funSig{}, strLits: map[string]*Term{}, abstract: map[string]int{}, links: map[string]*heapLink{}, boxed: map[*types.Var]bool{}, boxDone: map[*ast.BlockStmt]bool{}, names: map[string]int{}, specRec: map[*types.Func]int{}, inlining: map[*types.Func]int{}, fnSyms: map[string]*types.Func{}, framed: map[string]bool{}}
+	return &Exec{p: p, top: fi, axiomSet: map[*Term]bool{}, consts: map[string]Sort{}, funs: map[string]funSig{}, strLits: map[string]*Term{}, abstract: map[string]int{}, links: map[string]*heapLink{}, boxed: map[*types.Var]bool{}, boxDone: map[*ast.BlockStmt]bool{}, names: map[string]int{}, specRec: map[*types.Func]int{}, inlining: map[*types.Func]int{}, fnSyms: map[string]*types.Func{}, framed: map[*Term]bool{}}
 }
 
 type unsupportedErr struct{ msg string }
@@ -207,11 +209,10 @@ func (x *Exec) axiom(t *Term) {
 	if t.isTrue() {
 		return
 	}
-	k := t.String()
-	if x.axiomSet[k] {
+	if x.axiomSet[t] {
 		return
 	}
-	x.axiomSet[k] = true
+	x.axiomSet[t] = true
 	x.axioms = append(x.axioms, t)
 }
 
